@@ -169,9 +169,18 @@ def check(run):
     ix = Index(run.repo)
     run.analysed.update(ix.stats())
     mp = ix.func("trimesh.intersections:mesh_plane")
-    tc = mp.nested.get("triangle_cases")
+    # the classifier is the nested function that is not one of the three handlers (by role: the names are private to
+    # mesh_plane): the handlers are the nested functions collected in one tuple, the classifier is called on the signs
+    in_tuple = set()
+    for st in mp.node.body:
+        if isinstance(st, ast.Assign) and isinstance(st.value, ast.Tuple) and len(st.value.elts) == 3 and all(
+                isinstance(x, ast.Name) and x.id in mp.nested for x in st.value.elts):
+            in_tuple = {x.id for x in st.value.elts}
+    called = {c.func.id for c in ast.walk(mp.node) if isinstance(c, ast.Call) and isinstance(c.func, ast.Name)}
+    cands = [g for n_, g in mp.nested.items() if n_ not in in_tuple and n_ in called and len(g.params) == 1]
+    tc = mp.nested.get("triangle_cases") or (cands[0] if len(cands) == 1 else None)
     if tc is None:
-        raise AnalysisError("anchor vanished: mesh_plane.triangle_cases")
+        raise AnalysisError(f"anchor vanished: the sign classifier nested in mesh_plane ({len(cands)} candidates by role)")
     run.rule("R1", "the code of the sorted sign pattern is injective on the 10 patterns and indexes inside the key table")
     run.rule("R2", "the three case masks are pairwise disjoint for every sign vector")
     run.rule("R3", "each mask selects exactly the sign patterns its handler's indexing assumes (zeros per row, both sides present)")
@@ -236,7 +245,7 @@ def check(run):
     cases_var = next((ast.unparse(z.args[0]) for z in zipped if len(z.args) == 2 and ast.unparse(z.args[1]) == tgt), None)
     ok_cases = False
     for st in mp.node.body:
-        if isinstance(st, ast.Assign) and ast.unparse(st.targets[0]) == cases_var and "triangle_cases(" in ast.unparse(st.value):
+        if isinstance(st, ast.Assign) and ast.unparse(st.targets[0]) == cases_var and f"{tc.name}(" in ast.unparse(st.value):
             ok_cases = True
     run.instance("R4", mp.where, f"masks {names} zipped with {handler_names}: zip present={ok_zip}, cases from triangle_cases={ok_cases}",
                  ok_zip and ok_cases)
@@ -335,11 +344,15 @@ def _single_classifier(run, ix):
     run.rule("R10", "no caller pre-selects faces by comparing plane distances without the classifier's tolerance (tol.merge)")
     n9 = 0
     for spec in ("trimesh.intersections:mesh_plane", "trimesh.intersections:slice_faces_plane"):
-        f = ix.func(spec)
+        f = ix.inlined(ix.func(spec))
         pv = Prov(ix, f)
+        # the classification: the statements that compare the plane distances with the merge tolerance (by role; a
+        # classifier that was moved into a private helper is looked at through the helper's statements)
         cls = [st for st in f.node.body if isinstance(st, ast.Assign) and isinstance(st.targets[0], ast.Name) and st.targets[0].id == "signs"]
+        cls = cls or [st for st in f.node.body if isinstance(st, (ast.Assign, ast.AugAssign))
+                      and any(isinstance(x, ast.Compare) and "tol.merge" in ast.unparse(x) for x in ast.walk(st))]
         if not cls:
-            raise AnalysisError(f"anchor vanished: `signs = ...` in {spec}")
+            raise AnalysisError(f"anchor vanished: the sign classification (comparison with tol.merge) in {spec}")
         cn = [n for st in cls for n in pv.cfg.nodes_of.get(id(st), [])]
         for r in ast.walk(f.node):
             if not isinstance(r, ast.Return) or not pv.cfg.nodes_of.get(id(r)):
@@ -493,7 +506,7 @@ def _assembly(run, ix):
 
 def _slice_cases(run, ix, rows):
     """slice_faces_plane: inside / onedge classification and the quad / triangle split"""
-    f = ix.func("trimesh.intersections:slice_faces_plane")
+    f = ix.inlined(ix.func("trimesh.intersections:slice_faces_plane"))
     run.rule("R6", "slice: every sign vector is exactly one of inside / cut (onedge) / outside / coplanar, and cut == both sides present")
     run.rule("R7", "slice: rows sent to the quad branch have exactly one outside vertex, rows sent to the triangle branch exactly one inside vertex")
     run.rule("R8", "slice: sign convention (inside = positive side of the normal) and symmetric thresholds")
@@ -522,6 +535,10 @@ def _slice_cases(run, ix, rows):
             inside_val = val
         if (op is ast.Lt and r_ == "-tol.merge") or (op is ast.Gt and l_ == "-tol.merge"):
             outside_val = val
+    if not thr:
+        run.instance("R8", f.where, "slice_faces_plane: no store of a constant sign under a comparison with tol.merge found - NOT decided", True, nontrivial=False)
+        run.assume("slice_faces_plane: sign classification not in a recognised form (R6-R8 not decided)")
+        return
     ok8 = inside_val in (-1, 1) and outside_val is not None and outside_val == -inside_val and len(thr) == 2
     run.instance("R8", f.where, f"positive side -> {inside_val}, negative side -> {outside_val}", ok8)
     if not ok8:
